@@ -67,6 +67,8 @@ def case_strategy(tier):
             kind=kind, sem=sem, duration=R(1, 13), lags=draw(st.sampled_from(lagsets)),
             nvars=R(1, 2), size=R(1, 2), periods=R(1, 3), a=R(0, 9973), b=R(1, 97),
             glob=draw(st.booleans()),
+            # one free real parameter per time step, w[time] with w: Reals[T] declared global, bound after the product
+            per_step=R(0, 3) == 0,
         )
 
     return _s()
@@ -304,6 +306,14 @@ class C10(Prop):
         trans = Tensor(data, inputs)
         time = Variable("time", Bint[dur])
         gv = frozenset({"g"}) if case["glob"] else frozenset()
+        wval = None
+        if case.get("per_step"):
+            from funsor import Reals
+
+            trans = P(trans, Variable("w", Reals[dur])[time])
+            gv = gv | {"w"}
+            wval = np.asarray([0.5 + 0.25 * ((3 * t + case["a"]) % 5) for t in range(dur)])
+            stt.count("lagged:per-step-parameter")
         stt.count("lagged:" + ",".join(map(str, lags)))
         try:
             want = naive_sarkka_bilmes_product(S, P, trans, time, gv)
@@ -319,10 +329,17 @@ class C10(Prop):
             raise Violation("sarkka-raised-where-naive-returns:" + type(e).__name__, f"{e!r:.200}: {self.describe(case)}")
         if set(got.inputs) != set(want.inputs):
             raise Violation("lagged-inputs", f"inputs {sorted(got.inputs)} vs naive {sorted(want.inputs)}: {self.describe(case)}")
-        names_ = sorted(want.inputs)
+        names_ = sorted(n for n in want.inputs if n != "w")
         for idx in itertools.product(*[range(want.inputs[n].size) for n in names_]):
             pt = dict(zip(names_, idx))
-            a, b = eval_at(got, pt), eval_at(want, pt)
+            if wval is not None:
+                pt["w"] = wval
+            try:
+                a, b = eval_at(got, pt), eval_at(want, pt)
+            except Decline:
+                raise
+            except Exception as e:
+                raise Decline("lagged-binding-raised:" + innermost_funsor_frame(e))
             if not close(a, b):
                 raise Violation("lagged-wrong-value", f"at {pt}: sarkka_bilmes {np.asarray(a).tolist()} naive {np.asarray(b).tolist()}: {self.describe(case)}")
         stt.count("completed")
